@@ -1625,11 +1625,11 @@ func genSubmit(r *Rand) Input {
 	return in
 }
 
-// genMonitor: the service's client monitor takes time in ClientOperation (1 in 3 of the scenarios
+// genMonitor: the service's client monitor takes time in ClientOperation (1 in 2 of the scenarios
 // without a caller's deadline): whatever vouch does between a node's answer and counting it takes
 // fake time here, so a caller released before the answer is counted is seen.  Drawn last.
 func genMonitor(r *Rand, in *Input) {
-	if in.DeadlineMs > 0 || !r.Chance(1, 3) {
+	if in.DeadlineMs > 0 || !r.Chance(1, 2) {
 		return
 	}
 	T := in.TimeoutMs
